@@ -14,7 +14,7 @@ import (
 func init() {
 	core.Register(&core.Monitor{
 		ID:        "C05",
-		Technique: "reference-model monitor (ancestor-or-equal on both axes) + symmetry/self/array-vs-pairwise relations between calls",
+		Technique: "reference-model monitor (ancestor-or-equal on both axes) + symmetry/self/array-vs-pairwise relations between calls + concurrent scenarios (4-64 goroutines issuing the same judged calls at once) + hostile scheduler widths",
 		Rule: "per case: a pair of valid IDs generated relationally (identical, ancestor, descendant, sibling of an ancestor differing in exactly one axis, descendant of a sibling, unrelated), " +
 			"mixed zooms per axis, negative f, sub-metre zooms; extended form on any IDs, spatial (radix tree) form on h==v IDs with z>=1 and f inside the +-2^24 m window incl. its top and bottom index; " +
 			"both argument orders, self-overlap, and list pairs of 0-6 IDs (incl. empty first/second/both) compared with the OR of the pairwise oracle. " +
